@@ -157,7 +157,8 @@ def _worker(job):
     model-based instantiation mostly spins on satisfiable queries; a saturated, contradiction-free search ends
     quickly in `unknown (incomplete quantifiers)` with a candidate model.  2. z3's default configuration
     (auto_config, mbqi) for the remaining budget -- needed for non-linear real arithmetic."""
-    name, text, timeout_ms, expect = job
+    name, text, timeout_ms, expect = job[:4]
+    nogoal = job[4] if len(job) > 4 else None
     t0 = time.time()
     try:
         res, reason, model = _attempt(text, timeout_ms // 2 if expect == "unsat" else timeout_ms, False, False)
@@ -166,6 +167,14 @@ def _worker(job):
             res2, reason2, model2 = _attempt(text, timeout_ms // 2, True, True)
             if res2 in ("unsat", "sat"):
                 res, reason, model, cfg = res2, reason2, model2 if res2 == "sat" else model, "default"
+            if res2 == "unsat" and nogoal is not None:
+                # vacuity guard: model-based instantiation can exploit a latent inconsistency of hypotheses / axioms that
+                # E-matching (and so the path's reachability cover) never touches; the same configuration must NOT be able to
+                # refute the hypotheses alone
+                res3, _, _ = _attempt(nogoal, timeout_ms // 2, True, True)
+                if res3 == "unsat":
+                    res, reason = "vacuous", "the axioms used are contradictory on their own (default configuration): " \
+                                             "nothing proved from them counts"
         return dict(name=name, result=res, reason=reason, model=model, time=time.time() - t0,
                     solver=f"z3-{z3.get_version_string()}[{cfg}]")
     except Exception as e:  # crash of the back end: undecided, never a violation
@@ -215,8 +224,13 @@ def run_z3new(text, timeout_s=20):
 
 
 def _second_opinion(job):
-    name, text = job
+    name, text = job[:2]
     r, t, err = run_cvc5(text)
+    if r == "unsat" and len(job) > 2 and job[2] is not None:
+        r2, t2, _ = run_cvc5(job[2])       # vacuity guard, as for z3's default configuration
+        t += t2
+        if r2 == "unsat":
+            r = "vacuous"
     return dict(name=name, result=r, time=t, solver="cvc5-1.0", err=err)
 
 
@@ -229,6 +243,7 @@ def discharge(vcs, axiom_index, jobs=JOBS, timeout_ms=Z3_TIMEOUT_MS, keep_smt=3,
     """-> list[Verdict].  status: proved | refuted | undecided | vacuous | covered | error"""
     jobs_list = []
     texts = {}
+    nogoals = {}
     for k, vc in enumerate(vcs):
         if vc.expect == "sat":
             forms = list(vc.hyps)
@@ -238,7 +253,11 @@ def discharge(vcs, axiom_index, jobs=JOBS, timeout_ms=Z3_TIMEOUT_MS, keep_smt=3,
         text, obs = to_smt2([f for _, f in ax] + forms, vc.meta.get("observe"))
         texts[k] = text
         vc.meta["axioms_used"] = [n for n, _ in ax]
-        jobs_list.append((k, text, timeout_ms if vc.expect == "unsat" else min(timeout_ms, 3000), vc.expect))
+        # vacuity guard text: the relevant axioms alone (an infeasible path may legitimately have contradictory hypotheses;
+        # an inconsistent axiom set may not exist)
+        nogoal = to_smt2([f for _, f in ax])[0] if (vc.expect == "unsat" and ax) else None
+        nogoals[k] = nogoal
+        jobs_list.append((k, text, timeout_ms if vc.expect == "unsat" else min(timeout_ms, 3000), vc.expect, nogoal))
     results = {}
     if jobs <= 1 or len(jobs_list) <= 2:
         for j in jobs_list:
@@ -252,7 +271,7 @@ def discharge(vcs, axiom_index, jobs=JOBS, timeout_ms=Z3_TIMEOUT_MS, keep_smt=3,
     second = {}
     if unknown:
         with cf.ThreadPoolExecutor(max_workers=max(1, min(jobs, len(unknown)))) as ex:
-            for r in ex.map(_second_opinion, [(k, texts[k]) for k in unknown]):
+            for r in ex.map(_second_opinion, [(k, texts[k], nogoals.get(k)) for k in unknown]):
                 second[r["name"]] = r
     if cross:
         allk = [k for k, r in results.items() if r["result"] == "unsat"]
@@ -272,7 +291,9 @@ def discharge(vcs, axiom_index, jobs=JOBS, timeout_ms=Z3_TIMEOUT_MS, keep_smt=3,
             else:
                 out.append(Verdict(vc, "covered", r["solver"], r["time"], res))
             continue
-        if res == "unsat":
+        if res == "vacuous" or (second.get(k) or {}).get("result") == "vacuous":
+            out.append(Verdict(vc, "vacuous", r["solver"], r["time"], str(r.get("reason") or "the axioms used are contradictory on their own (cvc5)"), smt2=smt))
+        elif res == "unsat":
             out.append(Verdict(vc, "proved", r["solver"], r["time"]))
         elif res == "sat":
             st = "undecided" if vc.tainted else "refuted"
